@@ -649,7 +649,7 @@ package rlp
 // (*Stream).Decode: the reflective walker is out of reach; at call sites (hand-written DecodeRLP methods) its effect is
 // "anything": the whole heap is havocked, so the carrier struct holds arbitrary decoded values. Nothing is claimed about it.
 //@ func (*Stream).Decode props C14
-//@ modifies all, c14Consumed, c14K, c14Sz, c14P
+//@ modifies all, c14Consumed, c14K, c14Sz, c14P, c14E
 
 // Reset (NewStream, NewListStream): establishes the stream invariant; with an explicit input limit the stream is limited to it.
 //@ effectfree (*bytes.Reader).Len (*strings.Reader).Len bufio.NewReader
@@ -670,3 +670,222 @@ package rlp
 //@ ensures [limited] inputLimit > 0 ==> result.limited && result.remaining == inputLimit
 //@ ensures [invariant] inputLimit > 0 && c14Limit == inputLimit ==> c14Full(result)
 //@ ensures [invariant-auto] inputLimit == 0 && result.limited && c14Limit == result.remaining ==> c14Full(result)
+
+// ---------------------------------------------------------------------------------------------------------------------
+// Nil pointers (`rlp:"nil"`): decoder and encoder agree on what a nil pointer looks like on the wire.
+
+// The encodings of a nil pointer: the EMPTY string or the EMPTY list (0x80 / 0xC0) — a value of kind String or List with
+// size 0. A single byte < 0x80 (kind Byte, for which Kind also reports size 0) is a one-byte VALUE, never nil.
+//@ spec func c14NilEncoding(kind: int, size: int) bool = kind != 0 && size == 0
+
+// Decoder and encoder side meet in this lemma: a one-byte encoding is a nil encoding exactly if it is 0x80 or 0xC0.
+//@ lemma [C14.nil-encoding-bytes] forall buf: []byte :: 0 <= buf[0] && buf[0] <= 255 && c14TagSize(buf[0]) <= 1 ==>
+//@     (c14NilEncoding(c14Kind(buf[0]), if buf[0] < 128 then 0 else c14ContentSize(buf)) <==> (buf[0] == 128 || buf[0] == 192))
+
+// Ghost: error of the header that the optional-pointer decoder obtained from Kind.
+//@ ghost var c14E: int
+
+//@ effectfree reflect.Zero reflect.New (reflect.Value).IsNil (reflect.Value).Elem
+
+// The element decoder / writer reached through the type cache: the reflective walker, nothing is claimed about it.
+//@ func dynamic:decoder props C14
+//@ trusted
+//@ modifies all, c14Consumed, c14K, c14Sz, c14P, c14E
+//@ func dynamic:writer props C14
+//@ trusted
+//@ modifies all, c14Consumed, c14K, c14Sz, c14P, c14E
+
+// makeOptionalPtrDecoder$1 — the decoder of a pointer field tagged `rlp:"nil"`. It produces nil (reflect.Zero) ONLY when the
+// header is a nil encoding (or Kind failed, and then it returns that error); every other value — in particular a single
+// byte < 0x80 — goes to the element decoder. So exactly the bytes the encoder emits for a nil pointer decode to nil, and
+// an accepted non-nil value re-encodes as a non-nil value.
+//@ func makeOptionalPtrDecoder$1 props C14
+//@ requires c14Inv(s)
+//@ modifies all, c14Consumed, c14K, c14Sz, c14P, c14E
+//@ ghost after call (*Stream).Kind: c14K := ret0
+//@ ghost after call (*Stream).Kind: c14Sz := ret1
+//@ ghost after call (*Stream).Kind: c14E := ret2
+//@ assert before call reflect.Zero: [nil-only-for-nil-encoding] c14E != nil || c14NilEncoding(c14K, c14Sz)
+//@ assert before call dynamic:rlp.decoder: [value-goes-to-element-decoder] c14E == nil && !c14NilEncoding(c14K, c14Sz)
+//@ assert before return#2: [nil-path-returns-kind-error] result == c14E
+//@ assert before call dynamic:rlp.decoder: [header-still-cached] s.kind == c14K && s.size == c14Sz && s.kinderr == nil
+
+// makePtrDecoder$1 — plain pointer: the target is written only after the element decoded without error.
+//@ func makePtrDecoder$1 props C14
+//@ modifies all, c14Consumed, c14K, c14Sz, c14P, c14E
+//@ assert before call (reflect.Value).Set: [only-on-success] err == nil
+
+// Encoder side. makePtrWriter$1 (nil pointer to a byte array): appends the one byte 0x80 = the empty string.
+//@ func makePtrWriter$1 props C14
+//@ panics none
+//@ requires w != nil
+//@ let n0 = len(w.str)
+//@ modifies w.str, elems(w.str)
+//@ ensures [one-byte] len(w.str) == n0 + 1 && result == nil
+//@ ensures [nil-encoding] c14Kind(w.str[n0]) == 1 && c14TagSize(w.str[n0]) == 1 && c14NilEncoding(c14Kind(w.str[n0]), c14ContentSize(w.str[n0:]))
+//@ ensures [prefix] forall j: int :: 0 <= j && j < n0 ==> w.str[j] == old(w.str[j])
+
+// ---------------------------------------------------------------------------------------------------------------------
+// encode.go: list-header bookkeeping of the encoder buffer. String data goes to w.str as it is produced; list headers are
+// only COUNTED while encoding (w.lhsize) and WRITTEN when the output is assembled (toBytes / toWriter, through puthead).
+// Both must use the same header size, or EncodeToBytes (sized by size()) and Encode(w) emit different bytes.
+
+// list(): opens a list at the current end of the string data; the head's size field temporarily holds lhsize-at-open.
+//@ func (*encbuf).list props C14
+//@ panics none
+//@ requires w != nil
+//@ let n = len(w.lheads)
+//@ modifies w.lheads, elems(w.lheads)
+//@ ensures [head] result != nil && fresh(result) && result.offset == len(w.str) && result.size == w.lhsize
+//@ ensures [appended] len(w.lheads) == n + 1 && w.lheads[n] == result
+//@ ensures [kept] forall i: int :: 0 <= i && i < n ==> w.lheads[i] == old(w.lheads[i])
+//@ ensures [offsets-monotone] (forall i: int :: 0 <= i && i < n ==> old(w.lheads[i]).offset <= len(w.str)) ==>
+//@     (forall i: int :: 0 <= i && i < n + 1 ==> w.lheads[i].offset <= w.lheads[n].offset)
+
+// listEnd(lh): closes the list. Its payload in the FINAL encoding is the string data written since list() plus the list
+// headers counted since list(); that becomes lh.size, and the header that puthead will later WRITE for that size is counted:
+// c14HeadSize is the spec function of headsize()/puthead() (1 byte below 56, else 1 + intsize).
+//@ func (*encbuf).listEnd props C14
+//@ panics none
+//@ requires w != nil && lh != nil
+//@ requires 0 <= lh.offset && lh.offset <= len(w.str) && 0 <= lh.size && lh.size <= w.lhsize && w.lhsize < 2^62 && len(w.str) < 2^62
+//@ modifies lh.size, w.lhsize
+//@ ensures [payload-size] lh.size == (len(w.str) - lh.offset) + (old(w.lhsize) - old(lh.size))
+//@ ensures [header-counted] w.lhsize == old(w.lhsize) + c14HeadSize(lh.size)
+//@ ensures [header-is-headsize] w.lhsize - old(w.lhsize) == (if lh.size < 56 then 1 else 1 + c14IntSize(lh.size))
+
+//@ func (*encbuf).size props C14
+//@ panics none
+//@ requires w != nil
+//@ modifies nothing
+//@ ensures [size] result == wrapint(len(w.str) + w.lhsize)
+//@ ensures [size-exact] -2^63 <= len(w.str) + w.lhsize && len(w.str) + w.lhsize < 2^63 ==> result == len(w.str) + w.lhsize
+
+// (*listhead).encode: the bytes written for a list header are puthead's for head.size — exactly c14HeadSize(head.size) of them.
+//@ func (*listhead).encode props C14
+//@ panics none
+//@ requires head != nil && 0 <= head.size && len(buf) >= c14HeadSize(head.size)
+//@ modifies elems(buf)
+//@ ensures [slice] base(result) == base(buf) && off(result) == off(buf) && len(result) == c14HeadSize(head.size)
+//@ ensures [header] c14HeadAt(buf, 192, 247, head.size)
+//@ ensures [frame] forall p: int :: (p < off(buf) || p >= off(buf) + len(result)) ==> elems(buf)[p] == old(elems(buf)[p])
+
+// makePtrWriter$2 (nil pointer to a struct / array): an empty list — one header byte counted, payload size 0, i.e. the
+// nil encoding 0xC0 once puthead writes it (c14HeadAt(_, 192, 247, 0) is the byte 192).
+//@ func makePtrWriter$2 props C14
+//@ panics none
+//@ requires w != nil && 0 <= w.lhsize && w.lhsize < 2^62 && len(w.str) < 2^62
+//@ let n = len(w.lheads)
+//@ modifies w.lheads, elems(w.lheads), w.lhsize, all(listhead.size)
+//@ ensures [empty-list] len(w.lheads) == n + 1 && w.lheads[n].size == 0 && w.lheads[n].offset == len(w.str) && c14NilEncoding(2, w.lheads[n].size)
+//@ ensures [one-header-byte] w.lhsize == old(w.lhsize) + 1 && len(w.str) == old(len(w.str)) && result == nil
+
+// Assembling the output. c14HS(w, i) is the witness of "lhsize is the SUM of the header sizes": the number of header bytes
+// that precede list head i in the output (uninterpreted; pinned down by c14HeadsOK). c14HeadsOK is what list()/listEnd()
+// maintain once every list is closed: heads are non-nil, sizes >= 0, offsets ascending within the string data, and
+// w.lhsize == c14HS(w, len(w.lheads)) with each head contributing c14HeadSize(size) — the number of bytes puthead writes.
+//@ spec func c14HS(w: *encbuf, i: int) int
+// Proof device: c14Use(i) marks the indices at which the quantifier of c14HeadsOK is to be instantiated (it is part of the
+// trigger; without it the body's c14HS(w, i+1) re-triggers the quantifier at i+1, i+2, … — a matching loop). Its value is
+// irrelevant and fixed to 0, so `c14Use(k) == 0` in an invariant or assert is a hint, not a claim.
+//@ spec func c14Use(i: int) int
+//@ spec func c14HeadsOK(w: *encbuf) bool =
+//@     c14HS(w, 0) == 0 && w.lhsize == c14HS(w, len(w.lheads)) &&
+//@     (forall i: int :: { c14Use(i) } c14Use(i) == 0) &&
+//@     (forall i: int :: { c14HS(w, i), c14Use(i) } 0 <= i && i < len(w.lheads) ==>
+//@         w.lheads[i] != nil && 0 <= w.lheads[i].size && 0 <= w.lheads[i].offset && w.lheads[i].offset <= len(w.str) &&
+//@         (i >= 1 ==> w.lheads[i-1].offset <= w.lheads[i].offset) &&
+//@         0 <= c14HS(w, i) && c14HS(w, i+1) == c14HS(w, i) + c14HeadSize(w.lheads[i].size) && c14HS(w, i+1) <= c14HS(w, len(w.lheads)))
+//@     // (one quantifier, triggered by the prefix-sum term: the solvers do not match `w.lheads[i]` against `lheads[rangeindex+1]`)
+
+// toBytes: the output has size() bytes and the string pieces and headers written FILL it exactly — the header of list i
+// sits at offset(i) + (header bytes before it) — so no byte is cut off at the end and none is left unwritten.
+//@ func (*encbuf).toBytes props C14
+//@ panics none
+//@ requires w != nil && c14HeadsOK(w) && len(w.str) < 2^62 && w.lhsize < 2^62
+//@ modifies nothing
+//@ loop pos invariant [index] -1 <= rangeindex && rangeindex < len(w.lheads)
+//@ loop pos invariant [strpos] (rangeindex == -1 ==> strpos == 0) && (rangeindex >= 0 ==> strpos == w.lheads[rangeindex].offset)
+//@ loop pos invariant [pos] pos == strpos + c14HS(w, rangeindex + 1) && c14Use(rangeindex + 1) == 0
+//@ loop pos invariant [others] forall t: []byte :: base(t) != base(out) ==> elems(t) == old(elems(t))
+//@ assert before call (*listhead).encode: [header-at-offset] off(a1) == off(out) + head.offset + c14HS(w, rangeindex + 1)
+//@ assert before return: [filled] pos + (len(w.str) - strpos) == len(out)
+//@ ensures [length] len(result) == len(w.str) + w.lhsize && fresh(result)
+
+// Ghost: number of bytes accepted by the output writer so far.
+//@ ghost var c14Written: int
+
+// toWriter (Encode(w, x), and through it rlpHash): emits the SAME sequence as toBytes — the same string pieces, and for list i
+// the bytes of (*listhead).encode (= puthead for its size) after exactly offset(i) + c14HS(w, i) earlier bytes; on success
+// len(str) + lhsize bytes in total, which is len(toBytes()).
+//@ func (*encbuf).toWriter props C14
+//@ panics none
+//@ requires w != nil && out != nil && c14HeadsOK(w) && len(w.sizebuf) == 9 && len(w.str) < 2^62 && w.lhsize < 2^62
+//@ let W0 = c14Written
+//@ modifies elems(w.sizebuf), c14Written
+//@ loop strpos invariant [index] -1 <= rangeindex && rangeindex < len(w.lheads)
+//@ loop strpos invariant [strpos] (rangeindex == -1 ==> strpos == 0) && (rangeindex >= 0 ==> strpos == w.lheads[rangeindex].offset)
+//@ loop strpos invariant [strpos-range] 0 <= strpos && strpos <= len(w.str)
+//@ loop strpos invariant [written] c14Written == W0 + strpos + c14HS(w, rangeindex + 1) && c14Use(rangeindex + 1) == 0
+//@ loop strpos invariant [others] forall t: []byte :: base(t) != base(w.sizebuf) ==> elems(t) == old(elems(t))
+//@ assert before call (io.Writer).Write#3: [header-at-offset] c14Written == W0 + head.offset + c14HS(w, rangeindex + 1)
+//@ assert before call (io.Writer).Write#3: [header-bytes] len(a0) == c14HeadSize(head.size) && c14HeadAt(a0, 192, 247, head.size)
+//@ ensures [same-length] err == nil ==> c14Written == W0 + len(w.str) + w.lhsize
+//@ ensures [never-more] c14Written <= W0 + len(w.str) + w.lhsize
+
+// ---------------------------------------------------------------------------------------------------------------------
+// Periphery: entry point, booleans, unsigned integers.
+
+// Ghost: value obtained from reflect (Uint()/Bool()) resp. from Stream.uint; bytes left in the reader after decoding.
+//@ ghost var c14V: int
+//@ ghost var c14Left: int
+//@ effectfree bytes.NewReader (reflect.Value).Uint (reflect.Value).Bool
+
+// DecodeBytes: the stream is limited to exactly len(b), and success means the input held exactly ONE value — trailing bytes
+// are rejected (otherwise accepted bytes could not re-encode identically).
+//@ func DecodeBytes props C14
+//@ modifies all, c14Consumed, c14K, c14Sz, c14P, c14E, c14Left
+//@ ghost after call (*bytes.Reader).Len: c14Left := ret
+//@ assert before call NewStream: [limit-is-input-length] a1 == len(b)
+//@ assert before return#1: [no-trailing-data] c14Left <= 0
+//@ assert before return#2: [trailing-data-rejected] result == ErrMoreThanOneValue
+//@ assert before return#3: [decode-error-returned] result != nil
+
+// Stream.Bool: only the integers 0 and 1 are booleans (canonical: writeBool emits 0x80 for false, 0x01 for true).
+//@ func (*Stream).Bool props C14
+//@ panics none
+//@ requires c14Full(s)
+//@ modifies s.kind, s.size, s.kinderr, s.remaining, elems(s.stack), elems(s.uintbuf), s.byteval, c14Consumed, c14K, c14Sz, c14P, c14V
+//@ ghost after call (*Stream).uint: c14V := ret0
+//@ ensures [false-is-0] result1 == nil && !result0 ==> c14V == 0
+//@ ensures [true-is-1] result1 == nil && result0 ==> c14V == 1
+//@ ensures [others-rejected] c14V > 1 ==> result1 != nil
+//@ ensures [inv] c14Full(s)
+
+// writeBool: false -> 0x80 (empty string = integer 0), true -> 0x01 (single byte = integer 1).
+//@ func writeBool props C14
+//@ panics none
+//@ requires w != nil
+//@ let n0 = len(w.str)
+//@ modifies w.str, elems(w.str), c14V
+//@ ghost after call (reflect.Value).Bool: c14V := if ret then 1 else 0
+//@ ensures [one-byte] len(w.str) == n0 + 1 && result == nil
+//@ ensures [false] c14V == 0 ==> w.str[n0] == 128
+//@ ensures [true] c14V == 1 ==> w.str[n0] == 1
+//@ ensures [prefix] forall j: int :: 0 <= j && j < n0 ==> w.str[j] == old(w.str[j])
+
+// writeUint: the encoder counterpart of (*Stream).uint's canonical clauses: 0 -> 0x80; 1..127 -> the byte itself;
+// v >= 128 -> 0x80 + c14IntSize(v) followed by the c14IntSize(v) big-endian bytes of v (no leading zero).
+//@ func writeUint props C14
+//@ panics none
+//@ requires c14EncBuf(w)
+//@ let n0 = len(w.str)
+//@ modifies w.str, elems(w.str), elems(w.sizebuf), c14V
+//@ ghost after call (reflect.Value).Uint: c14V := ret
+//@ ensures [zero] c14V == 0 ==> len(w.str) == n0 + 1 && w.str[n0] == 128
+//@ ensures [small] 1 <= c14V && c14V < 128 ==> len(w.str) == n0 + 1 && w.str[n0] == c14V
+//@ ensures [large-length] c14V >= 128 ==> len(w.str) == n0 + 1 + c14IntSize(c14V)
+//@ ensures [large-header] c14V >= 128 ==> w.str[n0] == 128 + c14IntSize(c14V)
+//@ ensures [large-value] c14V >= 128 ==> c14BE(w.str, n0 + 1, c14IntSize(c14V)) == c14V && w.str[n0 + 1] != 0
+//@ ensures [prefix] forall j: int :: 0 <= j && j < n0 ==> w.str[j] == old(w.str[j])
+//@ ensures [encbuf] c14EncBuf(w) && result == nil
